@@ -310,4 +310,12 @@ def broadcast(x, target):
     return x
 
 
-defjvp(anp.pad, lambda g, ans, array, width, mode, **kwargs: anp.pad(g, width, mode))
+def fwd_grad_pad(g, ans, array, pad_width, mode="constant", **kwargs):
+    if mode not in ("constant", "edge", "linear_ramp", "mean", "reflect", "symmetric", "wrap"):
+        raise NotImplementedError("Forward-mode gradient of pad not implemented for mode={}".format(mode))
+    # the border values of "constant" and "linear_ramp" are constants with zero tangent
+    kwargs = {k: v for k, v in kwargs.items() if k not in ("constant_values", "end_values")}
+    return anp.pad(g, pad_width, mode, **kwargs)
+
+
+defjvp(anp.pad, fwd_grad_pad)
